@@ -178,7 +178,10 @@ def run_update(ck_ob, mod, label):
     if not tops:
         raise Broken("tinyjambu_hash_update: no whole-block loop found")
     n = 0
+    style = {}
     seen = {"A": set(), "B": set(), "iter": {h: 0 for h in tops}, "exit": {h: set() for h in tops}}
+    # entry paths (from the function entry) first: they determine what drives each block loop
+    paths = sorted(paths, key=lambda p_: 0 if [e_ for e_ in p_.events if e_[0] == "class" and e_[1] == "start"] else 1)
     for p in paths:
         if p.end[0] in ("loop-entry", "backedge") and p.end[1] not in tops:
             raise Broken("tinyjambu_hash_update: an inner loop without a decided trip count (header block %s)" % p.end[1])
@@ -245,8 +248,15 @@ def run_update(ck_ob, mod, label):
                 # recognised only if the loop carries (input pointer + constant, input length - constant); a block counter or an index is another shape
                 def _form(v, sym):
                     return v is not None and not is_word(v) and set(k_ for k_ in v if k_ != 1) == {sym} and v[sym] == 1
-                if not (_form(ini_c, IN) and _form(ini_r, NLEN)):
-                    raise Broken("tinyjambu_hash_update: the block loop is not driven by (input cursor, remaining length) but by %s / %s: unrecognised shape" % (ini_c, ini_r))
+                dvq = [d_ for d_ in p.divs.values() if d_[3] == 16 and ini_r is not None and not is_word(ini_r) and ini_r == Lf.s(d_[0])]
+                if _form(ini_c, IN) and len(dvq) == 1 and _form(dvq[0][2], NLEN):
+                    # the loop counts whole blocks: counter = (remaining length) / 16, the left-over bytes are (remaining length) % 16
+                    style[p.end[1]] = ("count", dvq[0][0], dvq[0][1])
+                    ini_r = dvq[0][2]
+                elif not (_form(ini_c, IN) and _form(ini_r, NLEN)):
+                    raise Broken("tinyjambu_hash_update: the block loop is not driven by (input cursor, remaining length or block count) but by %s / %s: unrecognised shape" % (ini_c, ini_r))
+                else:
+                    style.setdefault(p.end[1], ("rem",))
                 c("STREAM", ini_c == want_c and ini_r == want_r, "entry-cursor(posn=%d)" % pz, "block loop starts at in + %d with inlen - %d bytes left" % (take, take),
                   "block loop starts with cursor %s / remaining %s, expected %s / %s: input bytes are skipped or re-read" % (ini_c, ini_r, want_c, want_r))
                 c("STREAM", posn_end == Lf.c(0), "entry-posn(posn=%d)" % pz, "buffer empty (position 0) when the block loop starts", "buffer position is %s when the block loop starts, expected 0" % posn_end)
@@ -269,17 +279,32 @@ def run_update(ck_ob, mod, label):
                 S1, K1 = r
                 c("CONSTR", mode.words_eq(words_at(p, ST, 0, 8), S1 + K1), "block-result", "chaining value = (L', NOT R') after a whole block",
                   "stored chaining value differs: %s" % mode.first_diff(words_at(p, ST, 0, 8), S1 + K1))
-            okg = any(cc[0] == "uge" and cc[2] and cc[1] == Lf({rem: 1, 1: -16}) for cc in p.conds)
-            c("STREAM", okg, "block-guard", "a whole block is taken only when at least 16 bytes remain", "loop guard is not 'remaining >= 16'")
             bc, br = p.env.get(("back", ptrs[0].id)), p.env.get(("back", ints[0].id))
-            c("STREAM", bc == Lf({cur: 1, 1: 16}) and br == Lf({rem: 1, 1: -16}), "block-advance", "cursor += 16, remaining -= 16",
-              "after a block cursor=%s remaining=%s: input skipped or re-read" % (bc, br))
+            if style.get(h0, ("rem",))[0] == "count":
+                okg = ex._range(p, Lf({rem: 1}))[0] >= 1
+                c("STREAM", okg, "block-guard", "a whole block is taken only while the block counter is not 0", "loop guard does not exclude a block counter of 0")
+                c("STREAM", bc == Lf({cur: 1, 1: 16}) and br == Lf({rem: 1, 1: -1}), "block-advance", "cursor += 16, block counter -= 1",
+                  "after a block cursor=%s counter=%s: input skipped or re-read" % (bc, br))
+            else:
+                okg = any(cc[0] == "uge" and cc[2] and cc[1] == Lf({rem: 1, 1: -16}) for cc in p.conds)
+                c("STREAM", okg, "block-guard", "a whole block is taken only when at least 16 bytes remain", "loop guard is not 'remaining >= 16'")
+                c("STREAM", bc == Lf({cur: 1, 1: 16}) and br == Lf({rem: 1, 1: -16}), "block-advance", "cursor += 16, remaining -= 16",
+                  "after a block cursor=%s remaining=%s: input skipped or re-read" % (bc, br))
             c("STREAM", posn_end == p.start_lfmem.get((ST, 48, 4)), "block-posn", "buffer position untouched by whole blocks", "buffer position changed inside the block loop")
             n += 10
+        elif p.end[0] == "ret" and style.get(h0, ("rem",))[0] == "count":
+            from .aeadlib import residue_cases
+            if p.eqs.get(rem) != 0:
+                raise Broken("tinyjambu_hash_update: the block-counting loop is left with the counter not known to be 0: unrecognised shape")
+            rcs = residue_cases(ex, p, style[h0][2], f.name, top=15)
+            if len(rcs) != 1:
+                raise Broken("tinyjambu_hash_update: the left-over length is not fixed by the conditions of a tail path (%s): unrecognised shape" % rcs)
+            r = rcs[0]
         elif p.end[0] == "ret":
             r = p.eqs.get(rem)
             if r is None:
                 raise Broken("tinyjambu_hash_update: a path leaves the block loop without its conditions fixing the remaining length to one of 0..15: unrecognised shape")
+        if p.end[0] == "ret":
             seen["exit"][h0].add(r)
             c("STREAM", not pev, "tail-no-compress(%d)" % r, "fewer than 16 bytes left: nothing compressed", "compression with only %d bytes left" % r)
             okb = all(mem_byte(p, ST, 32 + i) == mode.inbyte(cur, i) for i in range(r))
